@@ -20,18 +20,21 @@ pub enum Step {
     Until,
     Cancel,
     SysYield,
+    /// like SysYield, but the coroutine is still in the syscall's Executing phase when it yields
+    SysYieldExec,
     SysCancel,
     /// (coroutine 0 only) resume coroutine 1 once from inside the body; not a yield
     Nest,
 }
 
-pub const STEPS: [Step; 6] = [
+pub const STEPS: [Step; 7] = [
     Step::Suspend,
     Step::Delay0,
     Step::Until,
     Step::Cancel,
     Step::SysYield,
     Step::SysCancel,
+    Step::SysYieldExec,
 ];
 
 impl Step {
@@ -42,6 +45,7 @@ impl Step {
             Step::Until => "Until",
             Step::Cancel => "Cancel",
             Step::SysYield => "SysYield",
+            Step::SysYieldExec => "SysYieldExec",
             Step::SysCancel => "SysCancel",
             Step::Nest => "Nest",
         }
@@ -62,6 +66,7 @@ fn ts_of(i: usize, k: usize, st: Step) -> u64 {
     match st {
         Step::Until => 10 * (i as u64 + 1) + k as u64,
         Step::SysYield => 500 + 10 * (i as u64 + 1) + k as u64,
+        Step::SysYieldExec => 700 + 10 * (i as u64 + 1) + k as u64,
         Step::Delay0 => T0,
         _ => 0,
     }
@@ -122,6 +127,10 @@ fn nests(p: &[Step]) -> usize {
 }
 
 fn programs(max_len: usize) -> Vec<Vec<Step>> {
+    programs_over(&STEPS, max_len)
+}
+
+fn programs_over(alphabet: &[Step], max_len: usize) -> Vec<Vec<Step>> {
     let mut out: Vec<Vec<Step>> = vec![vec![]];
     let mut level: Vec<Vec<Step>> = vec![vec![]];
     for _ in 0..max_len {
@@ -130,9 +139,9 @@ fn programs(max_len: usize) -> Vec<Vec<Step>> {
             if p.last().is_some_and(|s| s.terminal()) {
                 continue;
             }
-            for s in STEPS {
+            for s in alphabet {
                 let mut q = p.clone();
-                q.push(s);
+                q.push(*s);
                 next.push(q);
             }
         }
@@ -153,8 +162,10 @@ pub fn cases(tier: &str) -> Vec<Case> {
             order: vec![0; n],
         });
     }
-    // two coroutines, all interleavings
-    let ps = programs(l2);
+    // two coroutines, all interleavings (quick: without Delay0, which differs from Until only in the
+    // timestamp it asks for)
+    let pair_alpha: Vec<Step> = STEPS.iter().copied().filter(|s| tier == "thorough" || *s != Step::Delay0).collect();
+    let ps = programs_over(&pair_alpha, l2);
     for a in &ps {
         for b in &ps {
             for order in interleavings(&[resumes(a), resumes(b)]) {
@@ -276,6 +287,17 @@ pub fn exec(case: &Case, em: &mut Emitter) {
                                 .expect("syscall executing");
                             co.running().expect("leave syscall");
                         }
+                        Step::SysYieldExec => {
+                            let t = ts_of(i, k, *st);
+                            let co = SchedulableCoroutine::current().expect("current co");
+                            co.syscall((), SyscallName::sleep, SyscallState::Executing)
+                                .expect("enter syscall");
+                            s.until(t);
+                            let co = SchedulableCoroutine::current().expect("current co");
+                            co.syscall((), SyscallName::sleep, SyscallState::Executing)
+                                .expect("syscall executing");
+                            co.running().expect("leave syscall");
+                        }
                         Step::SysCancel => {
                             let co = SchedulableCoroutine::current().expect("current co");
                             co.syscall((), SyscallName::sleep, SyscallState::Executing)
@@ -307,6 +329,7 @@ fn kind(i: usize, k: usize, st: Option<Step>) -> Vec<String> {
         Some(s @ (Step::Delay0 | Step::Until)) => vec![format!("Suspend({})", ts_of(i, k, s))],
         Some(Step::Cancel) => vec!["Cancelled".into()],
         Some(s @ Step::SysYield) => vec![format!("Syscall(sleep,Suspend({}))", ts_of(i, k, s))],
+        Some(Step::SysYieldExec) => vec!["Syscall(sleep,Executing)".to_string()],
         // a cancel requested from inside a syscall state: the statement does not say which of
         // the two it must be reported as – both are accepted for the requester itself
         Some(Step::SysCancel) => vec!["Syscall(sleep,Executing)".into(), "Cancelled".into()],
@@ -376,7 +399,7 @@ pub fn judge(case: &Case, res: &ChildResult, rep: &mut Report) {
             // reported as a Syscall state leaves its timestamp / cancel request pending
             let consumed = !got.starts_with("Syscall(");
             made.push((i, s, ts_of(i, k, s), consumed));
-            if matches!(s, Step::SysYield | Step::SysCancel) && case.programs.len() > 1 {
+            if matches!(s, Step::SysYield | Step::SysYieldExec | Step::SysCancel) && case.programs.len() > 1 {
                 nontrivial = true;
             }
         }
